@@ -106,15 +106,15 @@ mod vharness {
         }
         core::mem::forget(e);
     }
-    //@harness props=C04,C01 strength=bounded bound="array literal of 0 elements" clause="array literal: the empty array is a value; nothing is scheduled"
+    //@harness props=C04,C01 quickfor=C04 strength=bounded bound="array literal of 0 elements" clause="array literal: the empty array is a value; nothing is scheduled"
     #[kani::proof]
     #[kani::unwind(6)]
     fn array_literal_n0() { array_literal(0); }
-    //@harness props=C04,C01 strength=bounded bound="array literal of 2 elements (an expression and a number literal)" clause="array literal: every element expression is wrapped in a thunk delayed on the CURRENT environment (a literal may be stored as its value); no element is scheduled for evaluation" replay=lazy
+    //@harness props=C04,C01 quickfor=C04 strength=bounded bound="array literal of 2 elements (an expression and a number literal)" clause="array literal: every element expression is wrapped in a thunk delayed on the CURRENT environment (a literal may be stored as its value); no element is scheduled for evaluation" replay=lazy
     #[kani::proof]
     #[kani::unwind(6)]
     fn array_literal_n2() { array_literal(2); }
-    //@harness props=C04,C01 strength=bounded bound="array literal of 3 elements" clause="array literal: every element expression is wrapped in a thunk delayed on the CURRENT environment; no element is scheduled for evaluation" replay=lazy
+    //@harness props=C04,C01 quickfor=C04 strength=bounded bound="array literal of 3 elements" clause="array literal: every element expression is wrapped in a thunk delayed on the CURRENT environment; no element is scheduled for evaluation" replay=lazy
     #[kani::proof]
     #[kani::unwind(6)]
     fn array_literal_n3() { array_literal(3); }
@@ -146,16 +146,16 @@ mod vharness {
         }
         core::mem::forget(e);
     }
-    //@harness props=C04,C01 strength=bounded bound="local with 1 binding" clause="local x = e; body: only the body is scheduled; e is wrapped in a thunk delayed on the new environment (so bindings can refer to each other) and bound under its name" replay=lazy
+    //@harness props=C04,C01 quickfor=C04 strength=bounded bound="local with 1 binding" clause="local x = e; body: only the body is scheduled; e is wrapped in a thunk delayed on the new environment (so bindings can refer to each other) and bound under its name" replay=lazy
     #[kani::proof]
     #[kani::unwind(6)]
     fn local_bindings_k1() { local_bindings(1); }
-    //@harness props=C04,C01 strength=bounded bound="local with 3 bindings" clause="local a = .., b = .., c = ..; body: only the body is scheduled; every bound expression is delayed on the new environment and bound under its name, in order" replay=lazy
+    //@harness props=C04,C01 quickfor=C04 strength=bounded bound="local with 3 bindings" clause="local a = .., b = .., c = ..; body: only the body is scheduled; every bound expression is delayed on the new environment and bound under its name, in order" replay=lazy
     #[kani::proof]
     #[kani::unwind(6)]
     fn local_bindings_k3() { local_bindings(3); }
 
-    //@harness props=C04,C01 strength=proof clause="new_pending_expr_thunk (the constructor every binding site uses): an expression that needs evaluation becomes a PENDING thunk on exactly the given expression and environment; only null / boolean / finite number / string / empty-array literals and function literals are stored as values"
+    //@harness props=C04,C01 quickfor=C04 strength=proof clause="new_pending_expr_thunk (the constructor every binding site uses): an expression that needs evaluation becomes a PENDING thunk on exactly the given expression and environment; only null / boolean / finite number / string / empty-array literals and function literals are stored as values"
     #[kani::proof]
     #[kani::unwind(6)]
     fn new_pending_expr_thunk_contract() {
